@@ -11,6 +11,8 @@ ffi.cdef("""
 #define ANY ...
 struct chk { int a; short b; };
 struct chk_size { int a; };
+struct fsize { int a; short s; int z; };
+union ufsize { int i; short s; };
 struct flex { int a; ...; };
 enum e { EA = 5, EB };
 enum open_e { OA, OB, ... };
@@ -23,6 +25,8 @@ ffi.set_source("_c12_demo", """
 #define ANY 99
 struct chk { int a; int pad; short b; };
 struct chk_size { int a; int extra; };
+struct fsize { int a; int s; int z; };
+union ufsize { int i; int s; };
 struct flex { long before; int a; char after[3]; };
 enum e { EA = 6, EB };
 enum open_e { OB = 10, OA = 20, OC };
@@ -52,6 +56,8 @@ raises('ffi.typeof("int[N]") (cdef 5, C 0)', lambda: f.typeof("int[N]"))
 # (lib.EA, cdef 5 / C 6, is the recorded finding C12-enum-unchecked: replayed by findings/C12_enum_unchecked.py)
 raises("struct chk (field b: cdef offset 4, C offset 8)", lambda: f.offsetof("struct chk", "b"))
 raises("struct chk_size (cdef size 4, C size 8)", lambda: f.sizeof("struct chk_size"))
+raises("struct fsize (field s: cdef 2 bytes, C 4 bytes)", lambda: f.new("struct fsize *"))
+raises("union ufsize (member s: cdef 2 bytes, C 4 bytes; same total size)", lambda: f.new("union ufsize *"))
 if (lib.OK, lib.NEGOK, lib.ANY) != (3, -4, 99):
     bad.append("agreeing constants: %r" % ((lib.OK, lib.NEGOK, lib.ANY),))
 if (lib.OA, lib.OB) != (20, 10):
